@@ -70,6 +70,9 @@ func genLayout(r *rand.Rand) layout {
 	sep := r.Intn(2) == 0
 	for i := 0; i < nseg; i++ {
 		fsz := uint64(8+r.Intn(3*pg)) &^ uint64(7)
+		if r.Intn(4) == 0 {
+			fsz = uint64(1+r.Intn(3)) * pg // padded to a page boundary
+		}
 		msz := fsz
 		flags := uint32(elf.PF_R)
 		if i == l.xseg {
@@ -144,7 +147,23 @@ func runSynth(c *harness.Ctx) harness.Result {
 		split = true
 	}
 	shared := l.sharedPage(l.xseg)
-	res := harness.Result{NonTrivial: true, Sig: l.String() + fmt.Sprint(bias, split), Sample: map[string]any{"layout": l.String(), "bias": fmt.Sprintf("%#x", bias), "mappings": fmt.Sprintf("%x", maps)}}
+	// adjacent mappings of one file with consecutive offsets are reported (and merged by pprof's
+	// own parsers) as one: the tail of the executable segment's mapping, from any of its pages on,
+	// together with the mapping of the following segment
+	if !split && !shared && l.xseg+1 < len(l.phs) && r.Intn(3) == 0 {
+		n := l.phs[l.xseg+1]
+		nstart := bias + (n.Vaddr &^ (pg - 1))
+		nlimit := bias + ((n.Vaddr + n.Filesz + pg - 1) &^ (pg - 1))
+		if nstart == mlimit && n.Off&^(pg-1) == moff+(mlimit-mstart) && !l.sharedPage(l.xseg+1) && n.Memsz == n.Filesz {
+			from := mstart + pg*uint64(r.Intn(int((mlimit-mstart)/pg)))
+			maps = []mp{{from, nlimit, moff + (from - mstart)}}
+			if from > mstart {
+				maps = append(maps, mp{mstart, from, moff})
+			}
+			c.Stat("merged_with_next_segment", 1)
+		}
+	}
+	res := harness.Result{NonTrivial: true, Sig: l.String() + fmt.Sprint(bias, split, len(maps)), Sample: map[string]any{"layout": l.String(), "bias": fmt.Sprintf("%#x", bias), "mappings": fmt.Sprintf("%x", maps)}}
 	bu := &binutils.Binutils{}
 	addrs := []uint64{x.Vaddr, x.Vaddr + x.Filesz - 1, x.Vaddr + uint64(r.Intn(int(x.Filesz))), x.Vaddr + uint64(r.Intn(int(x.Filesz))), (x.Vaddr + x.Filesz/2) &^ 0xf}
 	for _, m := range maps {
@@ -160,8 +179,12 @@ func runSynth(c *harness.Ctx) harness.Result {
 			}
 			c.Stat("translations", 1)
 			got, err := f.ObjAddr(rt)
+			// a merged mapping that holds less than one page of the executable segment and at least
+			// one page of the next one is attributed to the next segment by design: an error there
+			// is the documented answer
+			lessThanPage := len(maps) > 0 && m.limit > mlimit && x.Off+x.Filesz-m.off < pg
 			switch {
-			case err != nil && !shared && !split:
+			case err != nil && !shared && !split && !lessThanPage:
 				res.Verdict = harness.Violated
 				res.Detail = fmt.Sprintf("ObjAddr(%#x) failed although the address lies in the file-backed part of exactly one PT_LOAD segment that shares no page with another: %v\n%s\nbias=%#x mapping %x-%x@%x", rt, err, l, bias, m.start, m.limit, m.off)
 				return res
@@ -203,7 +226,93 @@ done
 	return os.WriteFile(filepath.Join(dir, "llvm-symbolizer"), []byte(script), 0o755)
 }
 
+// fake GNU addr2line (-aif protocol: address echo, function, file:line per request) and a fake nm
+// whose table holds one long-named symbol per 64 bytes of the executable segment
+func writeFakeAddr2line(dir string, x elf.Prog64) error {
+	script := `#!/bin/sh
+while read a; do
+  printf '0x%s\ng_%s\nf.c:1\n' "$a" "$a"
+done
+`
+	if err := os.WriteFile(filepath.Join(dir, "addr2line"), []byte(script), 0o755); err != nil {
+		return err
+	}
+	var tab strings.Builder
+	for a := x.Vaddr; a < x.Vaddr+x.Filesz; a += 0x40 {
+		fmt.Fprintf(&tab, "symbol_with_a_long_name_%x T %x 40\n", a, a)
+	}
+	if err := os.WriteFile(filepath.Join(dir, "nm.table"), []byte(tab.String()), 0o644); err != nil {
+		return err
+	}
+	return os.WriteFile(filepath.Join(dir, "nm"), []byte("#!/bin/sh\n/bin/cat "+filepath.Join(dir, "nm.table")+"\n"), 0o755)
+}
+
+func runProtocolA2L(c *harness.Ctx) harness.Result {
+	r := c.Rng
+	l := genLayout(r)
+	for l.sharedPage(l.xseg) {
+		l = genLayout(r)
+	}
+	path := filepath.Join(c.Tmp, "syn.so")
+	if err := writeELF(path, l.typ, l.phs); err != nil {
+		return harness.Result{Verdict: harness.Inconclusive, Detail: err.Error()}
+	}
+	tools := filepath.Join(c.Tmp, "tools")
+	os.MkdirAll(tools, 0o755)
+	x := l.phs[l.xseg]
+	if err := writeFakeAddr2line(tools, x); err != nil {
+		return harness.Result{Verdict: harness.Inconclusive, Detail: err.Error()}
+	}
+	bias := uint64(0)
+	if l.typ == elf.ET_DYN {
+		// low biases too: a bias smaller than the segment is where a lookup with the wrong address
+		// still lands inside the symbol table
+		bias = []uint64{uint64(0x7f0000000000) + uint64(r.Intn(1000))*l.align, l.align, 2 * l.align, uint64(1+r.Intn(8)) * l.align}[r.Intn(4)]
+	}
+	mstart := bias + (x.Vaddr &^ (pg - 1))
+	mlimit := bias + ((x.Vaddr + x.Filesz + pg - 1) &^ (pg - 1))
+	moff := x.Off &^ (pg - 1)
+	// pprof falls back to whatever llvm-symbolizer is on PATH: keep the interposed tools the only ones
+	oldPath := os.Getenv("PATH")
+	os.Setenv("PATH", tools)
+	defer os.Setenv("PATH", oldPath)
+	bu := &binutils.Binutils{}
+	bu.SetTools("llvm-symbolizer:/nonexistent,addr2line:" + tools + ",nm:" + tools + ",objdump:/nonexistent")
+	res := harness.Result{NonTrivial: true, Sig: "a2l " + l.String() + fmt.Sprint(bias), Sample: map[string]any{"layout": l.String(), "bias": fmt.Sprintf("%#x", bias), "tools": "interposed addr2line + nm"}}
+	f, err := bu.Open(path, mstart, mlimit, moff, "")
+	if err != nil {
+		return harness.Violation("Open failed: %v\n%s", err, l)
+	}
+	defer f.Close()
+	for k := 0; k < 4; k++ {
+		a := x.Vaddr + uint64(r.Intn(int(x.Filesz)))
+		fr, err := f.SourceLine(bias + a)
+		c.Stat("tool_requests", 1)
+		if err != nil {
+			return harness.Violation("SourceLine(%#x) through the interposed addr2line failed: %v\n%s", bias+a, err, l)
+		}
+		// the name comes from addr2line (it echoes the address it was asked about) or from the nm
+		// table (the symbol with the greatest start not above the link-time address)
+		w1 := fmt.Sprintf("g_%x", a)
+		w2 := fmt.Sprintf("symbol_with_a_long_name_%x", x.Vaddr+(a-x.Vaddr)&^0x3f)
+		if len(fr) != 1 || (fr[0].Func != w1 && fr[0].Func != w2) {
+			res.Verdict = harness.Violated
+			res.Detail = fmt.Sprintf("runtime address %#x (link-time %#x, bias %#x) was answered %v by the addr2line/nm tools; a lookup of the link-time address gives %q (addr2line) or %q (nm)\n%s", bias+a, a, bias, fr, w1, w2, l)
+			return res
+		}
+		if fr[0].Func == w2 {
+			c.Stat("names_from_nm_table", 1)
+		} else {
+			c.Stat("names_from_addr2line", 1)
+		}
+	}
+	return res
+}
+
 func runProtocol(c *harness.Ctx) harness.Result {
+	if c.Index%2 == 1 {
+		return runProtocolA2L(c)
+	}
 	r := c.Rng
 	l := genLayout(r)
 	for l.sharedPage(l.xseg) {
@@ -481,7 +590,7 @@ func init() {
 		Assumptions: []string{"page size 4 KiB", "unambiguous class = the address lies in the file-backed part of exactly one PT_LOAD and no other segment has file content on the same page, mapping not split", "layouts are those the generator and the installed compilers produce"},
 		Parts: []harness.Part{
 			{Name: "synth", Quick: 6000, Thor: 300000, Run: runSynth},
-			{Name: "protocol", Quick: 150, Thor: 3000, Run: runProtocol},
+			{Name: "protocol", Quick: 300, Thor: 6000, Run: runProtocol},
 			{Name: "nm", Quick: 600, Thor: 20000, Run: runNM},
 			{Name: "real", Quick: 7, Thor: 28, Run: runReal},
 		},
